@@ -1,26 +1,47 @@
 #!/usr/bin/env python3
-"""MANIFEST.setup_cmd: build everything the checks share, offline, from files on disk:
-the Rust harness against /repo (hooks on), the regenerated Coq tables, and the whole Coq project (full .vo)."""
-import glob, importlib, os, sys
+"""MANIFEST.setup_cmd: build what the registered checks share, offline, from files on disk: the Rust harness against
+/repo (hooks on), the regenerated Coq tables, and the .vo files of the registered checks (full .vo, never -vos).
+Never fails: every check rebuilds what it needs itself and reports a build problem as a broken tie."""
+import importlib, json, os, subprocess, sys, time
 ROOT = os.path.dirname(os.path.dirname(os.path.abspath(__file__)))
 sys.path.insert(0, os.path.join(ROOT, "tools")); sys.path.insert(0, ROOT)
 from vlib import core
 
+
 class C:  # minimal ctx for gen()
     notes = []
 
+
 def main():
-    t = core.build_harness()
-    print("harness built in %.0fs" % t, flush=True)
-    for path in sorted(glob.glob(os.path.join(ROOT, "checks", "C*.py"))):
-        m = importlib.import_module("checks." + os.path.basename(path)[:-3])
-        if hasattr(m, "gen"):
-            m.gen(C())
-    rc, out = core.coq_make(None, timeout=6000)
-    print(out[-3000:])
-    if rc != 0:
-        print("setup: Coq build failed (checks will report it per property)")
+    t0 = time.time()
+    try:
+        t = core.build_harness()
+        print("harness built in %.0fs" % t, flush=True)
+    except Exception as e:
+        print("setup: harness build failed: %s" % str(e)[-2000:], flush=True)
+    ready = json.load(open(os.path.join(ROOT, "tools", "not_applicable.json"))).get("ready", [])
+    targets = []
+    for pid in ready:
+        try:
+            m = importlib.import_module("checks." + pid)
+            if hasattr(m, "gen"):
+                m.gen(C())
+            for t in m.META.get("coq_targets", []):
+                if t not in targets:
+                    targets.append(t)
+        except Exception as e:
+            print("setup: %s: %s" % (pid, e), flush=True)
+    try:
+        rc, out = core.coq_make(["-k"] + targets, timeout=3300)
+        print(out[-3000:])
+        print("setup: coq make rc=%d" % rc)
+    except subprocess.TimeoutExpired:
+        print("setup: the Coq build did not finish in time; the checks will finish it")
+    except Exception as e:
+        print("setup: Coq build problem: %s" % e)
+    print("setup done in %.0fs" % (time.time() - t0))
     sys.exit(0)
+
 
 if __name__ == "__main__":
     main()
